@@ -654,7 +654,11 @@ func init() {
 				}
 				st, _, _ := tqPump(w.Lasso, 100)
 				if st {
-					return "starvation: " + strings.Join(lines, "; ")
+					other := "one-worker"
+					if w.Lasso.W > 1 {
+						other = "several-workers"
+					}
+					return "starvation/" + other + ": " + strings.Join(lines, "; ")
 				}
 				return "ok"
 			}
